@@ -7,6 +7,8 @@ VARIABLES
   acc,
   \* @type: Int -> Str;
   model,
+  \* @type: Int -> Str;
+  nested,
   \* @type: { loaded: Int, ch: Str, cache: Int };
   w,
   \* @type: { prob: Int, foreign: Set(Int), cached: Bool, kind: Str };
@@ -17,6 +19,7 @@ Channels == {"dict", "units", "model", "json", "csvdir", "csvpair", "xlsx"}
 SharedGraphDefault == FALSE
 MutatesModel == FALSE
 LoadKeepsCache == FALSE
+MutatesNested == FALSE
 
 INSTANCE ServiceHistoryInd
 
@@ -24,6 +27,7 @@ INSTANCE ServiceHistoryInd
 IndInit ==
   /\ acc \in SUBSET Probs
   /\ model \in [Probs -> {"pristine", "mutated"}]
+  /\ nested \in [Probs -> {"pristine", "mutated"}]
   /\ w \in [loaded: Probs \cup {0}, ch: Channels \cup {"none"}, cache: Probs \cup {0}]
   /\ res \in [prob: Probs \cup {0}, foreign: SUBSET Probs, cached: BOOLEAN, kind: Kinds]
   /\ IndInv
